@@ -13,7 +13,7 @@ from .core import Result, Violation, HarnessError, EventLog, bump, rng_for, sha_
 PROP = 'C20'
 TIMEOUT = 1800
 BATCHES = {
-    'quick': [('P', 600), ('A', 110), ('B', 110), ('S', 150), ('L', 60)],
+    'quick': [('P', 600), ('A', 110), ('B', 110), ('S', 220), ('L', 60)],
     'thorough': [('P', 12000), ('A', 2500), ('B', 2500), ('S', 3500), ('L', 2000)],
 }
 CHUNK = {'P': 6, 'A': 3, 'B': 3, 'S': 3, 'L': 20}
@@ -74,6 +74,8 @@ def gen_panel_def(rng, allow_none_model=True, mmax=5):
          'r': rng.uniform(2.0, 30.0), 'alphadeg': rng.uniform(2.0, 25.0),
          'm': rng.randint(3, mmax), 'n': rng.randint(3, mmax), 'flags': gen_flags(rng),
          'stack': rng.choice(STACKS), 'plyt': 1.25e-4, 'per_ply': rng.random() < 0.2,
+         # a per-ply table may contain a ply of zero thickness (a dropped ply kept in the table): it contributes nothing
+         'zero_ply': rng.choice([None, None, rng.randrange(8)]),
          'offset': rng.choice([0.0, 0.0, 2e-4, -1e-4]),
          'Nxx': rng.choice([None, -1.0, -50.0]), 'Nyy': rng.choice([None, None, -3.0]), 'Nxy': rng.choice([None, None, 2.0]),
          'Nxx_cte': rng.choice([None, None, -5.0]),
@@ -121,6 +123,13 @@ def gen_ops(rng, menu, nmin=5, nmax=30, heavy=()):
             op['fault'] = {'call': rng.choice([1, 1, 2, 3, 5]),
                            'kind': rng.choice(['ArpackNoConvergence', 'ArpackError', 'SingularFactor', 'MemoryError'])}
         ops.append(op)
+        follow = {'plot': 'uvw', 'plot_skin': 'uvw_skin', 'plot_stiffener': 'uvw_stiffener'}.get(name)
+        if follow and follow in menu and rng.random() < 0.6:
+            # a plot is typically followed by a look at the numbers behind it: the same field, same vector, same grid
+            op2 = dict(op)
+            op2.pop('fault', None)
+            op2['op'] = follow
+            ops.append(op2)
     return ops
 
 
@@ -197,7 +206,7 @@ def generate(seed, batch):
         if scen['defn']['method'] == 'simps2d':
             scen['defn']['nx'] |= 1
             scen['defn']['nt'] |= 1
-        scen['ops'] = gen_ops(rng, SHELL_OPS, nmax=18, heavy=('plot', 'static_nl', 'save_load'))
+        scen['ops'] = gen_ops(rng, SHELL_OPS, nmax=18, heavy=('plot', 'static_nl'))
     elif batch == 'L':
         # the laminate constructor itself: repeated calls in one process, short (uniform plyt/laminaprop) and long
         # (per-ply lists) argument forms, different laminates interleaved
@@ -262,7 +271,14 @@ def shrink_candidates(scen):
 
 # --------------------------------------------------------------------------- building objects
 
-def apply_panel_def(p, d):
+def _input_digest(x):
+    import numpy as np
+    if isinstance(x, np.ndarray):
+        return sha_bytes(x.tobytes())
+    return sha_bytes(repr(x).encode())
+
+
+def apply_panel_def(p, d, inputs=None):
     if d['model'] is not None:
         p.model = d['model']
     p.a, p.b = d['a'], d['b']
@@ -273,7 +289,13 @@ def apply_panel_def(p, d):
     p.stack = list(d['stack'])
     if d.get('per_ply'):
         p.plyts = [d['plyt'] for _ in d['stack']]
+        if d.get('zero_ply') is not None and len(d['stack']) >= 2:     # (never the only ply)
+            p.plyts[d['zero_ply'] % len(p.plyts)] = 0.0
         p.laminaprops = [LAMPROP for _ in d['stack']]
+        if inputs is not None:
+            # the caller's own tables
+            for lst, what in ((p.stack, 'stack list'), (p.plyts, 'plyts list'), (p.laminaprops, 'laminaprops list')):
+                inputs.append((lst, _input_digest(lst), what))
     else:
         p.plyt = d['plyt']
         p.laminaprop = LAMPROP
@@ -330,6 +352,8 @@ def apply_redefinition(p, d, op):
         d['plyt'] = 1.25e-4 * v
         if d.get('per_ply'):
             p.plyts = [d['plyt'] for _ in d['stack']]
+            if d.get('zero_ply') is not None and len(d['stack']) >= 2:     # (never the only ply)
+                p.plyts[d['zero_ply'] % len(p.plyts)] = 0.0
         else:
             p.plyt = d['plyt']
             p.plyts = None          # the per-ply list is derived from plyt: a consistent re-definition resets it
@@ -388,13 +412,13 @@ def build(kind, d, inputs=None):
     """inputs: list that receives (array, sha, what) for arrays the caller hands to the object at definition time"""
     if kind == 'panel':
         from compmech.panel import Panel
-        return apply_panel_def(Panel(), d)
+        return apply_panel_def(Panel(), d, inputs)
     if kind == 'assembly':
         from compmech.panel import Panel
         from compmech.panel.assembly import PanelAssembly
         panels = []
         for pd in d['panels']:
-            p = apply_panel_def(Panel(), pd)
+            p = apply_panel_def(Panel(), pd, inputs)
             p.group = pd['group']
             panels.append(p)
         conn = []
@@ -476,7 +500,7 @@ def build(kind, d, inputs=None):
             tab[0] = d['Nxxtop']
             cc.Nxxtop = tab
             if inputs is not None:
-                inputs.append((tab, sha_bytes(tab.tobytes()), 'Nxxtop table'))
+                inputs.append((tab, _input_digest(tab), 'Nxxtop table'))
         cc.bc = d['bc']
         cc.P = d['P']
         cc.num_eigvalues = d['num_eigvalues']
@@ -741,7 +765,8 @@ def run_panel_op(p, op, env, d):
         return p.stress(c, xs=xs, ys=ys, NLterms=op['nl'], **kw)
     if name == 'plot':
         import matplotlib.pyplot as plt
-        kw = dict(gridx=4, gridy=4)
+        spec_ = pools['pts'][op['pi']]
+        kw = dict(gridx=spec_['gridx'], gridy=spec_['gridy']) if spec_['grid'] else dict(gridx=4, gridy=4)
         if op['nl']:
             # caller-supplied 2-D point arrays and a deformed plot: the arrays must come back untouched
             np_ = env.np
@@ -849,6 +874,7 @@ def bay_size(d):
 def run_bay_op(bay, op, env, d):
     name = op['op']
     size = bay_size(d)
+    pools = env.scen['pools']
     if name == 'k0':
         return bay.calc_k0(silent=True)
     if name == 'kG0':
@@ -871,7 +897,11 @@ def run_bay_op(bay, op, env, d):
         return bay.uvw_stiffener(env.c(op['ci'], size), op['si'] % nst, region=op['region'], gridx=3, gridy=3)
     if name == 'plot_skin':
         import matplotlib.pyplot as plt
-        bay.plot_skin(env.c(op['ci'], size), vec='w', gridx=4, gridy=4, filename='bay.png', dpi=30)
+        # (same default grid as the uvw_skin queries of this history when those use a grid; optionally a deformed plot)
+        spec = pools['pts'][op['pi']]
+        gx_, gy_ = (spec['gridx'], spec['gridy']) if spec['grid'] else (4, 4)
+        bay.plot_skin(env.c(op['ci'], size), vec='w', gridx=gx_, gridy=gy_, filename='bay.png', dpi=30,
+                      deform_u=bool(op['nl']), deform_u_sf=50.)
         plt.close('all')
         return 'plotted'
     if name == 'get_size':
@@ -890,8 +920,8 @@ def run_bay_op(bay, op, env, d):
         if not nst:
             return 'no stiffener'
         import matplotlib.pyplot as plt
-        bay.plot_stiffener(env.c(op['ci'], size), op['si'] % nst, region=op['region'], vec='w', gridx=4, gridy=4,
-                           filename='stf.png', dpi=30)
+        bay.plot_stiffener(env.c(op['ci'], size), op['si'] % nst, region=op['region'], vec='w', gridx=3, gridy=3,
+                           filename='stf.png', dpi=30, deform_u=bool(op['nl']), deform_u_sf=50.)
         plt.close('all')
         return 'plotted'
     if name in ('mod_lb', 'mod_freq', 'mod_static'):
@@ -987,7 +1017,9 @@ def op_key(kind, op):
     if name in ('stiff_k0',):
         parts.append('s%d' % op['si'])
     if name == 'plot_stiffener':
-        parts += ['c%d' % op['ci'], 's%d' % op['si'], op['region']]
+        parts += ['c%d' % op['ci'], 's%d' % op['si'], op['region'], 'd%d' % int(op['nl'])]
+    if name == 'plot_skin':
+        parts += ['p%d' % op['pi'], 'd%d' % int(op['nl'])]
     if name in ('set_cores', 'set_ni_cores'):
         parts.append(str(op['k']))
     if name == 'redef':
@@ -1337,7 +1369,7 @@ def execute(scen):
                                                                    'why': 'a result returned by an earlier call was modified by this call'}, step=idx)
             what = env_s.check_inputs()
             for arr_, sha_, what_ in def_inputs:
-                if sha_bytes(arr_.tobytes()) != sha_:
+                if _input_digest(arr_) != sha_:
                     what = what or what_
             if what:
                 raise Violation('H3-inputs', {'op': key, 'index': idx, 'why': 'caller-supplied %s was modified' % what,
@@ -1384,6 +1416,23 @@ def execute(scen):
                 if kind == 'shell' and ni_changed and name in THREAD_SENSITIVE_SHELL:
                     rtol = 1e-9
                 ident, close, where = compare(out[1], ref[1], rtol if rtol else 0.0)
+                path_flip = False
+                if rtol and name == 'static_nl' and not ident and not close:
+                    # with another thread count the residuals differ in the last bits; a step on the edge of the acceptance or
+                    # divergence test may then be taken or cut back, and the two runs follow different increment histories.
+                    # That is rounding, not a dependence on the thread count: no verdict on this operation (counted)
+                    try:
+                        inc_s, inc_r = [float(np.asarray(x)) for x in out[1][0]], [float(np.asarray(x)) for x in ref[1][0]]
+                        path_flip = inc_s != inc_r
+                    except Exception:
+                        path_flip = False
+                if path_flip:
+                    bump(res['probes'], 'nl_increment_history_differs_between_thread_counts(no verdict)')
+                    for po in set(prev_ops):
+                        sigs.add('%s:%s>%s' % (kind, po, name))
+                    prev_ops.append(name)
+                    log.add(idx, key, 'path-flip')
+                    continue
                 if not ident and not (rtol and close):
                     v = Violation('H1-same-outcome', dict(ctx, where=str(where)[:300],
                                                           why='value differs from the value on a fresh object'), step=idx)
